@@ -139,8 +139,35 @@ def start_values(ctx):
         f = owner          # the configuration block was extracted into a helper: analyse it there
         cfg = CFG(f.node, m, f.module)
     sets = [c for c, o, site in deep if o is f]
-    chk = [n for n in body_walk(f.node) if isinstance(n, ast.If) and "'value'" in src(n.test) and "'default'" in src(n.test) and "'constant'" in src(n.test)]
+    def value_props(test):
+        """`propname in {'value', 'default', 'constant'}` - the collection may be a module level constant"""
+        for x in ast.walk(test):
+            if isinstance(x, ast.Compare) and len(x.ops) == 1 and isinstance(x.ops[0], ast.In):
+                coll = x.comparators[0]
+                vals = None
+                if isinstance(coll, (ast.Set, ast.Tuple, ast.List)):
+                    vals = {e.value for e in coll.elts if isinstance(e, ast.Constant)}
+                elif isinstance(coll, ast.Name):
+                    from sa.model import UNKNOWN
+                    v = m.const_name(f.module, coll.id)
+                    vals = set(v) if v is not UNKNOWN and isinstance(v, (set, frozenset, tuple, list)) else None
+                if vals is not None and {'value', 'default', 'constant'} <= vals:
+                    return True
+        return False
+    chk = [n for n in body_walk(f.node) if isinstance(n, ast.If) and value_props(n.test)]
+    # the check runs against the datatype AS CONFIGURED SO FAR: it sits in the loop that applies the properties in the order of
+    # the section (a check hoisted in front of that loop uses the class-level datatype: `Param('long text', maxchars=8)` passes)
+    dchecks = [c for c in calls_in(f.node) if isinstance(c.func, ast.Attribute) and c.func.attr == 'datatype' and c.args and
+               any(isinstance(x, ast.Subscript) for x in ast.walk(c.args[0]))]
+    for c in dchecks:
+        loops_c = [a for a in ancestors(c) if isinstance(a, ast.For)]
+        shared = any(any(a is b for b in ancestors(sp)) for a in loops_c for sp in sets)
+        ctx.check(shared, f'{f.qualname}:values are checked against the datatype as configured', c, 'inside the loop that applies the properties in order',
+                  f'`{src(c)}` checks value / default / constant in a pass of its own, BEFORE the properties of the same section (maxchars, datatype, ...) are applied: '
+                  'a value that fits the class-level datatype but not the configured one is accepted - and silently dropped later', f)
     ok = bool(chk) and any(isinstance(c.func, ast.Attribute) and c.func.attr == 'datatype' for c in calls_in(chk[0]))
+    if dchecks and not chk:
+        ok = True       # the selection of value / default / constant has another form (a loop over the three names): decided above
     ctx.check(ok, f'{f.qualname}:configured values checked against the datatype', f.node, 'accessible.datatype(cfg[propname]) for value/default/constant',
               'value / default / constant from the configuration are stored without a datatype check', f)
     if chk:
